@@ -179,3 +179,60 @@ Example demo_composed_run :
     (header_kf demo_header) [chr10; chr2; chr1; chr2]
   = Ok [chr1; chr2; chr2; chr10].
 Proof. vm_compute. reflexivity. Qed.
+
+(* ---------- closed form: the codec premise discharged from C04 (proofs/CodecContract.v) ---------- *)
+From MafVerif Require model.Columns model.Layouts model.ColRecord proofs.LayoutFacts proofs.RenderFacts
+  proofs.RenderFacts2 proofs.CodecContract.
+
+(* The sorting writer as maf-lib configures it: items are typed records of one
+   of the 14 built layouts as a Strict reader produces them, encode =
+   str(record), decode = MafRecord.from_line(text, scheme, Strict), i.e.
+   MafSorterCodec(scheme=...).  `maf_codec_contract` is no longer a premise: by
+   C04 the rendering of such a record parses back to the identical record, for
+   every view `v0` of a record as the dictionary the sort keys read.
+   Remaining premises: the oracle laws of float()/uuid.UUID() (C04), the
+   contract of the host's sorted()/heapq (pick_contract), capacity >= 1.
+   Item type: records not holding the one-element list [Null] in a
+   SequenceOfNullableYesOrNo column (the recorded C04 finding); the decoder
+   refuses such a record, which no rendering of an item produces. *)
+Theorem C10_sorting_writer_obeys_its_header_closed :
+  forall (Or : Columns.oracles), RenderFacts.oracle_laws Or ->
+  forall (l : Layouts.layout), In l LayoutFacts.layouts_ok ->
+  forall (v0 : ColRecord.crec -> locatable)
+         (pick_min : forall X : Type, (X -> X -> bool) -> list X -> option (X * list X))
+         (c : nat) (al : bool),
+    (1 <= c)%nat -> pick_contract pick_min ->
+    forall (rkeys : CodecContract.layout_item Or l -> list str)
+           (validate : CodecContract.layout_item Or l -> res unit) (h : wheader)
+           (rs : list (CodecContract.layout_item Or l)),
+    sortable h ->
+    Forall (fun r => validate r = Ok tt) rs ->
+    Forall (fun r => good (header_kf h) (v0 (proj1_sig r))) rs ->
+    exists w ys,
+      writer_session (CodecContract.layout_item Or l) (fun a => v0 (proj1_sig a)) (CodecContract.layout_enc Or l)
+                     rkeys validate
+                     (maf_sorter_iter (CodecContract.layout_item Or l) (fun a => v0 (proj1_sig a))
+                                      (CodecContract.layout_enc Or l) (CodecContract.layout_dec Or l) pick_min c al)
+                     h false rs = (w, Ok tt) /\
+      w_closed _ w = true /\
+      w_out _ w = wh_text h ++ col_lines _ rkeys h rs ++ map (CodecContract.layout_enc Or l) ys /\
+      Permutation (map (CodecContract.layout_enc Or l) ys) (map (CodecContract.layout_enc Or l) rs) /\
+      StronglySorted (fun a b => rec_ltb (header_kf h) (v0 (proj1_sig b)) (v0 (proj1_sig a)) = false) ys /\
+      (header_coherent h -> reader_iter (wh_text h) (map (fun a => v0 (proj1_sig a)) ys)
+                            = (map (fun a => v0 (proj1_sig a)) ys, Ok tt)).
+Proof.
+  intros Or HO l Hin v0 pick_min c al Hc Hp.
+  exact (sorting_writer_composed (CodecContract.layout_item Or l) (fun a => v0 (proj1_sig a))
+           (CodecContract.layout_enc Or l) (CodecContract.layout_dec Or l) pick_min c al Hc Hp
+           (CodecContract.built_layout_codec_contract Or HO l v0 Hin)).
+Qed.
+Print Assumptions C10_sorting_writer_obeys_its_header_closed.
+
+(* the codec contract itself, for every built layout *)
+Theorem C10_maf_codec_contract_holds :
+  forall (Or : Columns.oracles), RenderFacts.oracle_laws Or ->
+  forall (l : Layouts.layout) (v0 : ColRecord.crec -> locatable), In l LayoutFacts.layouts_ok ->
+    maf_codec_contract (CodecContract.layout_item Or l) (fun a => v0 (proj1_sig a))
+                       (CodecContract.layout_enc Or l) (CodecContract.layout_dec Or l).
+Proof. exact CodecContract.built_layout_codec_contract. Qed.
+Print Assumptions C10_maf_codec_contract_holds.
